@@ -1,4 +1,4 @@
-import Txtpp.Model.Refine
+import Txtpp.Model.Machine
 namespace Refine
 variable {D σ : Type}
 
@@ -7,9 +7,16 @@ def rhs (S : Sem D σ) (t : Bool) (st : σ) (pending : Bool) (out : Str) (bs : L
 
 theorem rhs_text (S : Sem D σ) (t st pending out l bs) :
     rhs S t st pending out (.text l :: bs) =
-      rhs S t (S.text st l).1 true (out ++ (if pending then S.le else []) ++ (S.text st l).2) bs := by
+      match S.text st l with
+      | (st', some l') => rhs S t st' true (out ++ (if pending then S.le else []) ++ l') bs
+      | (st', none) => rhs S t st' pending out bs := by
   simp only [rhs, eval]
-  cases h : eval S (S.text st l).1 bs <;> simp [render, List.append_assoc]
+  rcases h : S.text st l with ⟨st', o⟩
+  cases o with
+  | none => simp
+  | some l' =>
+    simp only
+    cases h2 : eval S st' bs <;> simp [render, List.append_assoc]
 
 theorem rhs_dir_none (S : Sem D σ) (t st pending out d e bs) (h : S.exec st d = none) :
     rhs S t st pending out (.dir d e :: bs) = none := by
@@ -41,8 +48,13 @@ theorem map_dir_bind (S : Sem D σ) (t st pending out d e) (x : Option (List (Bl
 
 theorem map_text_bind (S : Sem D σ) (t st pending out l) (x : Option (List (Block D))) :
     (x.map (Block.text l :: ·)).bind (rhs S t st pending out) =
-      x.bind (rhs S t (S.text st l).1 true (out ++ (if pending then S.le else []) ++ (S.text st l).2)) := by
-  cases x <;> simp [rhs_text]
+      match S.text st l with
+      | (st', some l') => x.bind (rhs S t st' true (out ++ (if pending then S.le else []) ++ l'))
+      | (st', none) => x.bind (rhs S t st' pending out) := by
+  rcases h : S.text st l with ⟨st', o⟩
+  cases x with
+  | none => cases o <;> simp
+  | some bs => simp only [Option.map_some, Option.bind_some, rhs_text, h]
 
 /-- parse of a fresh line, as a function of the rest -/
 def parseFresh (S : Sem D σ) (l : Str) (ls : List Str) : Option (List (Block D)) := parse S none (l :: ls)
@@ -59,8 +71,11 @@ theorem fresh_step (S : Sem D σ) (t : Bool) (l : Str) (ls : List Str)
     simp only
     cases hb : S.badStart d <;> simp [ih]
   | none =>
-    simp only [emit, Option.bind_some, ih, map_text_bind]
-    simp
+    simp only [map_text_bind]
+    rcases h : S.text st l with ⟨st', o⟩
+    cases o with
+    | none => simp [ih]
+    | some l' => simp [emit, ih]
 
 theorem feedAll_cons (S : Sem D σ) (m : MSt D σ) (l ls) :
     feedAll S m (l :: ls) = (feed S m l).bind (fun m' => feedAll S m' ls) := by
